@@ -94,6 +94,7 @@ type Explorer struct {
 	violations map[string][]*Violation // by signature
 	vioOrder   []string
 	witnesses  map[string]*Witness
+	witnessCount map[string]int
 	samples    []string
 	funcsSeen  map[string]bool
 	solver     SolverStats
@@ -123,6 +124,7 @@ func NewExplorer(prog *Program, harness string, tier int, opts ExploreOpts) *Exp
 	ex.cond = sync.NewCond(&ex.mu)
 	ex.violations = make(map[string][]*Violation)
 	ex.witnesses = make(map[string]*Witness)
+	ex.witnessCount = make(map[string]int)
 	ex.funcsSeen = make(map[string]bool)
 	ex.stats.Unsupported = make(map[string]int)
 	ex.stats.Labels = make(map[string]int64)
